@@ -361,8 +361,11 @@ def specs(tier):
     und = [(n, es, False) for n, es in gr.small_graphs(3) if es]
     dig = [(n, es, True) for n in (2, 3) for es in (gr.labelled_digraphs(n) if thorough else gr.digraph_shapes(n)) if es]
     extra = [(4, gr.NAMED["C4"][1], False), (4, gr.NAMED["S4"][1], False)]
+    # self-loops are legal contact networks: the pair (u,u) is one ordered neighbour pair
+    loops = [(3, [(0, 1), (1, 2), (1, 1)], False), (3, [(0, 1), (1, 2), (0, 2), (2, 2), (0, 0)], False),
+             (3, [(0, 1), (1, 0), (1, 2), (1, 1)], True), (2, [(0, 1), (0, 0), (1, 1)], True)]
     for (name, Hs, Js, alphabet) in catalogue():
-        for (n, es, d) in und + dig + (extra if thorough else []):
+        for (n, es, d) in und + dig + loops + (extra if thorough else []):
             ics = list(itertools.product(alphabet, repeat=n))
             if n >= 4 or (len(alphabet) >= 4 and not thorough):
                 ics = [ic for ic in ics if len(set(ic)) >= 2 and sum(1 for x in ic if x == alphabet[0]) >= n - 2]
